@@ -2,6 +2,7 @@ package analyzer
 
 import (
 	"fmt"
+	"sort"
 	"strings"
 
 	"github.com/juev/hledger-lsp/internal/ast"
@@ -464,12 +465,20 @@ func (a *Analyzer) createBalanceDiagnostic(tx *ast.Transaction, br *BalanceResul
 		}
 	}
 
+	// Differences is a map: name its commodities in sorted order, so that the same
+	// transaction always gets the same message.
+	commodities := make([]string, 0, len(br.Differences))
+	for commodity := range br.Differences {
+		commodities = append(commodities, commodity)
+	}
+	sort.Strings(commodities)
+
 	var msg string
-	for commodity, diff := range br.Differences {
+	for _, commodity := range commodities {
 		if msg != "" {
 			msg += "; "
 		}
-		msg += fmt.Sprintf("%s off by %s", commodity, diff.String())
+		msg += fmt.Sprintf("%s off by %s", commodity, br.Differences[commodity].String())
 	}
 
 	return Diagnostic{
